@@ -10,7 +10,18 @@
 
    The per-evaluation alignment clause (value i belongs to individual i, best = min) is about EVQESelection, not about
    the loop: theorem C10_selection_alignment (Props/C10.v); here it is checked on every recorded real run by the
-   oracle (harness/vlib/solvercases.py: oracle_evqe_c05). *)
+   oracle (harness/vlib/solvercases.py: oracle_evqe_c05), as is the re-evaluation of the best individual.
+
+   C05_result_assembly only fixes what the model's `finish` returns: WHICH individual the eigenstate and the aux values
+   are computed from.  That `w_measure init i` means "the circuit of i composed BEHIND init, measured" is the reading
+   of an abstract function, and the Python lines that assemble the result are not covered by the translation tie: the
+   clause "eigenstate = distribution of the best individual behind the initial state, aux values = its objectives" is
+   DECIDED BY THE ORACLE on real runs (eigenstate-not-of-best / aux-not-of-best, with initial states that do not
+   commute with the ansatz, aux operators as list and dict, estimator / sampler / bitstring evaluators).
+
+   builder-repro composes this loop model with the models of the EVQE operators (Repro/Compose.v) and instantiates
+   C05_ledger_shape_evqe for the composed model without the shape hypothesis; those closed instances are stated in
+   Props/C17.v (C17_run_ledger_shape etc.), not here. *)
 From QV Require Import Common.Base Solver.Loop Solver.Ledger Solver.Ledger_proofs Solver.Loop_proofs Solver.Shape_proofs
   Solver.SolverCheck.
 From Coq Require Import QArith.
